@@ -557,7 +557,10 @@ def run_case(case, ctx):
                     mech = f"value/unspecified-form-parsed-to-other-value/{t}"
                 else:
                     mech = f"value/{sc.mode}/{t}{'-multiple' if d['multiple'] else ''}"
-                ctx.violation(mech, "the parsed value is not the value whose textual form was given",
+                what = ("a non-boolean word given for a bool option is silently parsed (as True)"
+                        if mech == "wrong-type-accepted/bool-any-string-is-true"
+                        else "the parsed value is not the value whose textual form was given")
+                ctx.violation(mech, what,
                               dict(desc, option=d["name"], source=ascii(src), got=ascii(got), want=ascii(want)))
             cbs = option_cb[i]
             if cbs:
